@@ -188,7 +188,12 @@ func (c *c01) DumpCase(seed uint64, idx int) []Case {
 			cfg.PathBodyFuzz = true
 			cfg.Types += 2
 		}
-		switch r.n(10) {
+		if r.chance(80) {
+			cfg.MutualTypesMissing = true
+		}
+		switch r.n(11) {
+		case 10:
+			cfg.MacroLadder = 8 + r.n(28)
 		case 8, 9:
 			cfg.MacroGraph = 2 + r.n(5)
 		case 0:
@@ -208,6 +213,7 @@ func (c *c01) DumpCase(seed uint64, idx int) []Case {
 			base.Project = multi
 		}
 		base.Extra = map[string]any{"nfaults": faultCount(r, r.chance(200)), "fseed": r.n(1 << 30), "mutual": cfg.MutualMacros}
+		respellRoot(&base.Project, r)
 		return []Case{base}
 	case idx < c.nCorpus+c.nGen+c.nSweep:
 		base.Kind = "sweep"
